@@ -130,8 +130,8 @@ fn u3_body(which: u8, n: usize) {
     assert!(sink.b[i] == want, "byte written differs from BOM ++ encode(text)");
     cover!(with_bom, "with_bom");
 }
-harness! { fn c17_u3_write_utf16le_len3() unwind(12) stubs(std::fmt::format => crate::common::stub_fmt_format) { u3_body(0, 3) } }
-harness! { fn c17_u3_write_utf16be_len3() unwind(12) stubs(std::fmt::format => crate::common::stub_fmt_format) { u3_body(1, 3) } }
+harness! { fn c17_u3_write_utf16le_len3() unwind(12) stubs(std::fmt::format => crate::common::stub_fmt_format, std::vec::Vec::reserve => crate::common::stub_vec_reserve_no_growth) { u3_body(0, 3) } }
+harness! { fn c17_u3_write_utf16be_len3() unwind(12) stubs(std::fmt::format => crate::common::stub_fmt_format, std::vec::Vec::reserve => crate::common::stub_vec_reserve_no_growth) { u3_body(1, 3) } }
 harness! { fn c17_u3_write_utf8_len3() unwind(12) stubs(std::fmt::format => crate::common::stub_fmt_format) { u3_body(2, 3) } }
 
 use pasfmt_core::prelude::*;
@@ -188,6 +188,25 @@ fn u2_body(with_bom: bool, second_feff: bool, n: usize) {
     cover!(c.len() > 3, "has_payload");
     std::mem::forget(contents);
 }
-harness! { fn c17_u2_decode_bom_then_feff_n1() unwind(20) stubs(std::fmt::format => crate::common::stub_fmt_format) { u2_body(true, true, 1) } }
-harness! { fn c17_u2_decode_bom_n2() unwind(20) stubs(std::fmt::format => crate::common::stub_fmt_format) { u2_body(true, false, 2) } }
-harness! { fn c17_u2_decode_nobom_feff_n1() unwind(20) stubs(std::fmt::format => crate::common::stub_fmt_format) { u2_body(false, true, 1) } }
+harness! { fn c17_u2_decode_bom_then_feff_n1() unwind(12) stubs(std::fmt::format => crate::common::stub_fmt_format, encoding_rs::Encoding::decode_without_bom_handling => crate::c17::stub_decode_without_bom_handling, encoding_rs::Encoding::decode_with_bom_removal => crate::c17::stub_decode_with_bom_removal, encoding_rs::Encoding::decode => crate::c17::stub_decode) { u2_body(true, true, 1) } }
+harness! { fn c17_u2_decode_bom_n2() unwind(12) stubs(std::fmt::format => crate::common::stub_fmt_format, encoding_rs::Encoding::decode_without_bom_handling => crate::c17::stub_decode_without_bom_handling, encoding_rs::Encoding::decode_with_bom_removal => crate::c17::stub_decode_with_bom_removal, encoding_rs::Encoding::decode => crate::c17::stub_decode) { u2_body(true, false, 2) } }
+harness! { fn c17_u2_decode_nobom_feff_n1() unwind(12) stubs(std::fmt::format => crate::common::stub_fmt_format, encoding_rs::Encoding::decode_without_bom_handling => crate::c17::stub_decode_without_bom_handling, encoding_rs::Encoding::decode_with_bom_removal => crate::c17::stub_decode_with_bom_removal, encoding_rs::Encoding::decode => crate::c17::stub_decode) { u2_body(false, true, 1) } }
+
+// Contract models of encoding_rs's decode entry points for UTF-8 input that the harness knows to
+// be valid (the library's validation loops are too expensive to encode, measured: no verdict in
+// 25 min on 7 bytes). Documented contracts: `decode_without_bom_handling` decodes every byte it
+// is given; `decode_with_bom_removal` first removes *this encoding's* BOM if present; `decode`
+// sniffs any BOM. pasfmt must hand the payload after the sniffed BOM to the first one.
+pub fn stub_decode_without_bom_handling<'a>(enc: &'static encoding_rs::Encoding, bytes: &'a [u8]) -> (std::borrow::Cow<'a, str>, bool) {
+    assert!(enc == encoding_rs::UTF_8, "model covers UTF-8 only");
+    (std::borrow::Cow::Borrowed(unsafe { std::str::from_utf8_unchecked(bytes) }), false)
+}
+pub fn stub_decode_with_bom_removal<'a>(enc: &'static encoding_rs::Encoding, bytes: &'a [u8]) -> (std::borrow::Cow<'a, str>, bool) {
+    assert!(enc == encoding_rs::UTF_8, "model covers UTF-8 only");
+    let b = if bytes.len() >= 3 && bytes[0] == 0xEF && bytes[1] == 0xBB && bytes[2] == 0xBF { &bytes[3..] } else { bytes };
+    (std::borrow::Cow::Borrowed(unsafe { std::str::from_utf8_unchecked(b) }), false)
+}
+pub fn stub_decode<'a>(enc: &'static encoding_rs::Encoding, bytes: &'a [u8]) -> (std::borrow::Cow<'a, str>, &'static encoding_rs::Encoding, bool) {
+    let (c, e) = stub_decode_with_bom_removal(enc, bytes);
+    (c, enc, e)
+}
